@@ -431,6 +431,37 @@ func oneCopy(st *state, w []string) (res, src0, d0, d1, same, pres, pd1, psame s
 	return
 }
 
+// concWords: the op words of goroutine g of a `conc` op. Goroutine 0 runs the op as written; the others
+// shift the seeds and vary the per-call options (extra ignore list / extra converter / none at all).
+func concWords(w []string, g int) []string {
+	cw := append([]string{}, w...)
+	if g > 0 {
+		for i, x := range cw {
+			for _, key := range []string{"s=", "d="} {
+				if strings.HasPrefix(x, key) && x != "d=fresh" {
+					v, _ := strconv.ParseUint(x[len(key):], 10, 64)
+					cw[i] = key + strconv.FormatUint(v+uint64(g)*7919, 10)
+				}
+			}
+		}
+		switch g % 4 {
+		case 1:
+			cw = append(cw, "ign="+fieldNames[g%len(fieldNames)]+","+fieldNames[(g+3)%len(fieldNames)])
+		case 2:
+			var kept []string
+			for _, x := range cw {
+				if !strings.HasPrefix(x, "ign=") && !strings.HasPrefix(x, "conv=") {
+					kept = append(kept, x)
+				}
+			}
+			cw = kept
+		case 3:
+			cw = append(cw, "conv="+fieldNames[g%len(fieldNames)]+":neg")
+		}
+	}
+	return append(cw, "api=copyto")
+}
+
 func run(ops []string, out *vlib.Out, sts *stats) {
 	var st *state
 	seen := map[string]struct{}{}
@@ -503,11 +534,8 @@ func run(ops []string, out *vlib.Out, sts *stats) {
 				continue
 			}
 			if st.h == nil {
-				// the constructor failed: only the pure CopyTo can be observed (if the pair is two structs)
-				if st.p.src.Kind() != reflect.Struct || st.p.dst.Kind() != reflect.Struct {
-					out.Line("%s => no-copier", line)
-					continue
-				}
+				// the constructor failed: only the pure CopyTo can be observed — also when an entry type is not a
+				// struct (CopyTo's own argument checks: an error, never a panic)
 				_, src0, d0, _, _, pres, pd1, psame := oneCopy(st, w)
 				sts.Pure[class(pres)]++
 				out.Line("%s => no-copier src=%s d0=%s pure=%s pd1=%s psame=%s", line, src0, d0, pres, pd1, psame)
@@ -534,30 +562,73 @@ func run(ops []string, out *vlib.Out, sts *stats) {
 			}
 			n, _ := strconv.Atoi(kv(w, "n"))
 			type one struct{ res, src0, d0, d1, same string }
-			results := make([]one, n)
+			// "a copier shared by many goroutines gives the same results" = the same as when it is not shared:
+			// every goroutine gets its OWN source / destination seeds and per-call options (goroutine 0 those of
+			// the op, which the driver judges), the reference result of each is taken sequentially first, and
+			// every concurrent call must reproduce its reference. Identical inputs in all goroutines would hide
+			// any per-call state kept in the shared copier.
+			cws := make([][]string, n)
+			for g := 0; g < n; g++ {
+				cws[g] = concWords(w, g)
+			}
+			refs := make([]one, n)
+			for g := 0; g < n; g++ {
+				var o one
+				o.res, o.src0, o.d0, o.d1, o.same, _, _, _ = oneCopy(st, cws[g])
+				refs[g] = o
+			}
+			// the hot loop contains nothing but the copier calls: inputs are built before the start signal,
+			// destinations are rendered after the loop
+			const reps = 24
+			diff := make([]bool, n)
 			var wg sync.WaitGroup
 			start := make(chan struct{})
-			cw := append(append([]string{}, w...), "api=copyto")
 			for g := 0; g < n; g++ {
 				wg.Add(1)
 				go func(g int) {
 					defer wg.Done()
-					<-start
-					var o one
-					for rep := 0; rep < 3; rep++ {
-						o.res, o.src0, o.d0, o.d1, o.same, _, _, _ = oneCopy(st, cw)
+					sseed, dseed := kv(cws[g], "s"), kv(cws[g], "d")
+					opts := parseOpts(cws[g])
+					var srcs, dsts [reps]reflect.Value
+					var rds [reps]*renderer
+					var outs [reps]one
+					for rep := 0; rep < reps; rep++ {
+						srcs[rep] = newValue(st.p.src, sseed)
+						dsts[rep] = newValue(st.p.dst, dseed)
+						rds[rep] = newRenderer()
+						outs[rep].src0 = rds[rep].val(srcs[rep].Elem())
+						outs[rep].d0 = rds[rep].val(dsts[rep].Elem())
 					}
-					results[g] = o
+					<-start
+					for rep := 0; rep < reps; rep++ {
+						rep := rep
+						if pn := vlib.Catch(func() { outs[rep].res = errTok(st.h.CopyTo(srcs[rep], dsts[rep], opts)) }); pn != "" {
+							outs[rep].res = pn
+						}
+					}
+					// same rendering order as oneCopy: source, destination before (above); destination after, source again
+					for rep := 0; rep < reps; rep++ {
+						o := &outs[rep]
+						o.d1 = rds[rep].val(dsts[rep].Elem())
+						o.same = "0"
+						if rds[rep].val(srcs[rep].Elem()) == o.src0 {
+							o.same = "1"
+						}
+						if *o != refs[g] {
+							diff[g] = true
+						}
+					}
 				}(g)
 			}
 			close(start)
 			wg.Wait()
 			all := "1"
-			for g := 1; g < n; g++ {
-				if results[g] != results[0] {
+			for g := 0; g < n; g++ {
+				if diff[g] {
 					all = "0"
 				}
 			}
+			results := refs
 			o := results[0]
 			sts.Results["conc:"+class(o.res)]++
 			out.Line("%s => %s src=%s d0=%s d1=%s same=%s allsame=%s", line, o.res, o.src0, o.d0, o.d1, o.same, all)
